@@ -48,7 +48,7 @@ func (a Atom) String() string {
 	case "ctx":
 		return "Ctx." + a.Name
 	case "ext":
-		return "Call(" + a.Name + ")"
+		return "Call(" + a.Name + ")" + a.Path
 	case "const":
 		return "Const(" + a.Name + ")"
 	}
@@ -548,7 +548,7 @@ func (p *Program) callWrites(x ssa.CallInstruction, argIdx int, path string, dep
 	if kind, ok := isCodecCall(x); ok && kind == "marshal" {
 		return
 	}
-	out.add(Atom{Kind: "ext", Name: name, Call: x})
+	out.add(Atom{Kind: "ext", Name: name, Call: x, Path: path})
 	for i, a := range c.Args {
 		if i == argIdx || isCtxType(a.Type()) {
 			continue
